@@ -154,10 +154,16 @@ def truncated_svd(
         reverse = torch.arange(len(S) - 1, -1, -1)
         where = torch.where((torch.cumsum(S[reverse], dim=0) <= delta**2))[0]
 
+        # Singular values at round-off level are null directions: they are never kept
+        tol = max(M.shape) * torch.finfo(S.dtype).eps
+        if algorithm == "svd":
+            null = int(torch.sum(svd[1] <= svd[1][0] * tol))
+        else:  # The Gram matrix squares the spectrum
+            null = int(torch.sum(S <= S[0] * tol))
         if len(where) == 0:
-            rank = max(1, int(min(rmax, len(S))))
+            rank = max(1, int(min(rmax, len(S) - null)))
         else:
-            rank = max(1, int(min(rmax, len(S) - 1 - where[-1])))
+            rank = max(1, int(min(rmax, len(S) - max(null, 1 + int(where[-1])))))
 
     left = svd[0]
     left = left[..., :rank]
